@@ -9,51 +9,53 @@ open P2PVerif P2PVerif.P2PKE
 /-- ⊢ slot discipline, in every reachable state: previous and current sessions are ready, the prospective
     session is not (a session that becomes ready is promoted before `Deliver` returns, also when it was completed
     by data instead of the final handshake message). -/
-theorem slots_inv (key : KeyId) (accept : KeyId → Bool) (ra ka : Nat) (lt : IdLt) (ops : List COp) :
-    let c := (Chan.fresh key accept ra ka).run lt ops
+theorem slots_inv (key : KeyId) (accept : KeyId → Bool) (ra ka ht : Nat) (lt : IdLt) (ops : List COp) :
+    let c := (Chan.fresh key accept ra ka ht).run lt ops
     (∀ e, c.prev = some e → e.sess.isReady = true) ∧ (∀ e, c.cur = some e → e.sess.isReady = true) ∧
     (∀ e, c.next = some e → e.sess.isReady = false) :=
-  P2PKE.slots_inv key accept ra ka lt ops
+  P2PKE.slots_inv key accept ra ka ht lt ops
 
-/-- ⊢ make before break: a rekey, a handshake retransmission or an incoming term never leaves the channel
-    without a current session if it had one that has not expired; the old session stays until the new one is ready. -/
-theorem make_before_break (key : KeyId) (accept : KeyId → Bool) (ra ka : Nat) (lt : IdLt) (ops : List COp) (op : COp) :
-    let c := (Chan.fresh key accept ra ka).run lt ops
+/-- ⊢ make before break: a rekey, a handshake retransmission, a blocking caller (or its cancellation) or an
+    incoming term never leaves the channel without a current session if it had one that has not expired (the
+    handshake timer and a blocking caller expire sessions first, like Send and the rekey timer); the old session
+    stays until the new one is ready. -/
+theorem make_before_break (key : KeyId) (accept : KeyId → Bool) (ra ka ht : Nat) (lt : IdLt) (ops : List COp) (op : COp) :
+    let c := (Chan.fresh key accept ra ka ht).run lt ops
     c.cur.isSome →
     (match op with
-     | .deliver .. | .hs => True
-     | .send _ now | .rekey _ now | .expire now => (c.expire now).cur.isSome) →
+     | .deliver .. | .unpend => True
+     | .send _ now | .rekey _ now | .expire now | .hs now | .pend now => (c.expire now).cur.isSome) →
     (c.step lt op).1.cur.isSome :=
-  P2PKE.make_before_break key accept ra ka lt ops op
+  P2PKE.make_before_break key accept ra ka ht lt ops op
 
 /-- ⊢ keep-alive is sound: authenticated data through the current session refreshes `lastReceived`, and a current
     session that is not past its reject time and received data no longer than the keep-alive timeout ago is not
     torn down. -/
-theorem keepalive_sound (key : KeyId) (accept : KeyId → Bool) (ra ka : Nat) (lt : IdLt) (ops : List COp) :
-    let c := (Chan.fresh key accept ra ka).run lt ops
+theorem keepalive_sound (key : KeyId) (accept : KeyId → Bool) (ra ka ht : Nat) (lt : IdLt) (ops : List COp) :
+    let c := (Chan.fresh key accept ra ka ht).run lt ops
     (∀ e w now p, c.cur = some e → (e.sess.deliver w now).2 = .app p →
         (c.deliverSlot 1 w now).1.lastReceived = now ∧ (c.deliverSlot 1 w now).2 = some (some { app := some p })) ∧
     (∀ e now, c.cur = some e → now ≤ e.sess.expiresAt → now - c.lastReceived ≤ c.keepAlive → (c.expire now).cur = some e) :=
-  P2PKE.keepalive_sound key accept ra ka lt ops
+  P2PKE.keepalive_sound key accept ra ka ht lt ops
 
 /-- ⊢ simultaneous initiation converges: when both sides hold their own initiator session and each receives the
     other's InitHello, both end up on the same handshake (the one whose id is smaller), whatever the order. -/
-theorem tie_break_converges (kA kB : KeyId) (ra ka : Nat) (lt : IdLt) (tA tB ephA ephB eA' eB' now : Nat)
+theorem tie_break_converges (kA kB : KeyId) (ra ka ht : Nat) (lt : IdLt) (tA tB ephA ephB eA' eB' now : Nat)
     (hlt : ∀ a b, a ≠ b → (lt a b = true ↔ lt b a = false)) (hne : ephA ≠ ephB) :
-    let A := (Chan.fresh kA (fun _ => true) ra ka).onRekey lt ephA tA
-    let B := (Chan.fresh kB (fun _ => true) ra ka).onRekey lt ephB tB
+    let A := (Chan.fresh kA (fun _ => true) ra ka ht).onRekey lt ephA tA
+    let B := (Chan.fresh kB (fun _ => true) ra ka ht).onRekey lt ephB tB
     ∀ a b, A.next.map (·.id) = some a → B.next.map (·.id) = some b →
       let A' := (A.deliver lt b eA' now).1
       let B' := (B.deliver lt a eB' now).1
       A'.next.map (·.id) = B'.next.map (·.id) ∧ (A'.next.map (·.id) = some a ∨ A'.next.map (·.id) = some b) :=
-  P2PKE.tie_break_converges kA kB ra ka lt tA tB ephA ephB eA' eB' now hlt hne
+  P2PKE.tie_break_converges kA kB ra ka ht lt tA tB ephA ephB eA' eB' now hlt hne
 
 /-- ⊢ convergence (partial): once every emitted message is delivered, a pending Send completes within three
     handshake rounds — from fresh channels, and after the peer restarted with a fresh channel at any point of
     an established connection (`ops` is an arbitrary history of the surviving side after establishment is not
     covered: see DESIGN.md section 6; wall-clock bounds rest on timers firing when due). -/
-theorem convergence_partial (kA kB : KeyId) (ra ka : Nat) (lt : IdLt) (t0 : Nat) (p : Bytes) :
-    P2PKE.EstablishFresh kA kB ra ka lt t0 p ∧ P2PKE.EstablishAfterRestart kA kB ra ka lt t0 p :=
-  ⟨P2PKE.establish_fresh kA kB ra ka lt t0 p, P2PKE.establish_after_restart kA kB ra ka lt t0 p⟩
+theorem convergence_partial (kA kB : KeyId) (ra ka ht : Nat) (lt : IdLt) (t0 : Nat) (p : Bytes) :
+    P2PKE.EstablishFresh kA kB ra ka ht lt t0 p ∧ P2PKE.EstablishAfterRestart kA kB ra ka ht lt t0 p :=
+  ⟨P2PKE.establish_fresh kA kB ra ka ht lt t0 p, P2PKE.establish_after_restart kA kB ra ka ht lt t0 p⟩
 
 end P2PVerif.C07
